@@ -70,13 +70,17 @@ def writeSegment (crc : Bytes → Nat) (ps : List Bytes) (ts : List Nat) : Optio
     let recs := records ps
     some (segHeader crc ps.length (minOf ts) (maxOf ts) ++ (recs ++ segFooter crc recs))
 
-/-- `DeltaIterator`: at most `remaining` records; stops SILENTLY when the data is exhausted
-    (`offset >= data.len()`), errors on a torn length prefix / torn record / undecodable one.
-    `record_count` is not cross-checked against the number of records present. -/
-def readRecords {δ : Type} (de : Bytes → Option δ) : Nat → Bytes → Res (List δ)
+/-- `DeltaIterator`: at most `remaining` records; errors on a torn length prefix / torn record /
+    undecodable one.  When the data is exhausted (`offset >= data.len()`) although records are
+    still announced by the header:
+    * `strict = true` (CURRENT code, after the `fix:` commit "segment iterator errors when fewer
+      records than record_count are present"): `Err(UnexpectedEof)`;
+    * `strict = false` (before it): the iterator stopped SILENTLY, i.e. `record_count` was not
+      cross-checked against the number of records present. -/
+def readRecords {δ : Type} (strict : Bool) (de : Bytes → Option δ) : Nat → Bytes → Res (List δ)
   | 0, _ => .ok []
   | r + 1, data =>
-    if data.length = 0 then .ok []
+    if data.length = 0 then (if strict then .error .eof else .ok [])
     else if data.length < 4 then .error .eof
     else
       let len := leVal (data.take 4)
@@ -86,13 +90,13 @@ def readRecords {δ : Type} (de : Bytes → Option δ) : Nat → Bytes → Res (
         match de (rest.take len) with
         | none => .error .ser
         | some d =>
-          match readRecords de r (rest.drop len) with
+          match readRecords strict de r (rest.drop len) with
           | .ok ds => .ok (d :: ds)
           | .error e => .error e
 
 /-- `SegmentReader::open` + `validate` + `read_all` on the three parts of an image
     (`hdr` = first 40 bytes, `foot` = last 24 bytes, `recs` = what lies between) -/
-def readSegParts {δ : Type} (crc : Bytes → Nat) (de : Bytes → Option δ)
+def readSegParts {δ : Type} (strict : Bool) (crc : Bytes → Nat) (de : Bytes → Option δ)
     (hdr recs foot : Bytes) : Res (List δ) :=
   let h := hdr.take 30
   -- SegmentHeader::validate
@@ -106,14 +110,14 @@ def readSegParts {δ : Type} (crc : Bytes → Nat) (de : Bytes → Option δ)
   -- SegmentReader::validate
   else if crc recs ≠ leVal (foot.take 4) then .error .checksum
   -- read_all
-  else readRecords de (leVal ((h.drop 6).take 4)) recs
+  else readRecords strict de (leVal ((h.drop 6).take 4)) recs
 
 /-- what recovery does with a segment object (`RecoveryManager::load_segment`) -/
-def readSegment {δ : Type} (crc : Bytes → Nat) (de : Bytes → Option δ) (data : Bytes) :
+def readSegment {δ : Type} (strict : Bool) (crc : Bytes → Nat) (de : Bytes → Option δ) (data : Bytes) :
     Res (List δ) :=
   if data.length < 64 then .error .eof   -- HEADER_SIZE + FOOTER_SIZE
   else
-    readSegParts crc de (data.take 40) ((data.drop 40).take (data.length - 64))
+    readSegParts strict crc de (data.take 40) ((data.drop 40).take (data.length - 64))
       (data.drop (data.length - 24))
 
 /-! ## checkpoint: header(48) | data_len:u32 | data | footer(16) | (anything) -/
